@@ -35,6 +35,7 @@ def main():
     ap.add_argument("--checks", default="")
     ap.add_argument("--tier", default="quick")
     ap.add_argument("--skip-confirm", action="store_true")
+    ap.add_argument("--in-repo", action="store_true", help="apply the diff to /repo itself (and undo it) instead of binding the scratch worktree at /repo in a private mount namespace")
     a = ap.parse_args()
     wt = "/tmp/wt-" + a.prop.lower()
     diff = os.path.join(a.outdir, "m%s.diff" % a.i)
@@ -74,24 +75,52 @@ def main():
         if not ok:
             print("NOT CONFIRMED - not kept")
             sys.exit(3)
-    # evaluate against /repo
+    # evaluate
     checks = [a.prop] + [c for c in a.checks.split(",") if c]
-    rc, out = sh("git -C /repo status --porcelain --untracked-files=no")
-    if out.strip():
-        print("/repo is not clean:", out)
-        sys.exit(2)
-    rc, out = sh("git -C /repo apply %s" % diff)
     results = {}
-    try:
-        for c in checks:
-            rc, out = sh("./check %s --tier %s" % (c, a.tier), cwd=V, timeout=7200)
-            forms = {}
-            for m in re.finditer(r"^VIOLATION .*formula=(\S+)", out, re.M):
-                forms[m.group(1)] = forms.get(m.group(1), 0) + 1
-            results[c] = {"tier": a.tier, "exit": rc, "formulas": forms, "tail": out.strip().splitlines()[-1] if out.strip() else ""}
-            print(c, results[c])
-    finally:
-        sh("git -C /repo checkout -- .")
+
+    def record(c, rc, out):
+        forms = {}
+        for m in re.finditer(r"^VIOLATION .*formula=(\S+)", out, re.M):
+            forms[m.group(1)] = forms.get(m.group(1), 0) + 1
+        results[c] = {"tier": a.tier, "exit": rc, "formulas": forms, "tail": out.strip().splitlines()[-1] if out.strip() else ""}
+        print(c, results[c])
+    if a.in_repo:
+        rc, out = sh("git -C /repo status --porcelain --untracked-files=no")
+        if out.strip():
+            print("/repo is not clean:", out)
+            sys.exit(2)
+        rc, out = sh("git -C /repo apply %s" % diff)
+        try:
+            for c in checks:
+                record(c, *sh("./check %s --tier %s" % (c, a.tier), cwd=V, timeout=7200))
+        finally:
+            sh("git -C /repo checkout -- .")
+        meta["evaluated_how"] = "git -C /repo apply <patch.diff>; ./check ...; git -C /repo checkout -- ."
+    else:
+        # the scratch worktree (same commit as /repo, diff applied) is bound at /repo and a copy of /verif at /verif,
+        # in a private mount namespace: the checks run unchanged and nothing outside the namespace sees the change
+        rc, out = sh("git -C /repo rev-parse HEAD")
+        rc2, out2 = sh("git rev-parse HEAD", cwd=wt)
+        if out.strip() != out2.strip():
+            print("scratch worktree is not at /repo's HEAD")
+            sys.exit(2)
+        sh("git checkout -- . && git clean -fdq", cwd=wt)
+        rc, out = sh("git apply %s" % diff, cwd=wt)
+        if rc != 0:
+            print("diff does not apply:", out)
+            sys.exit(2)
+        vc = "/tmp/vc-" + sid
+        sh("rm -rf %s && mkdir -p %s && rsync -a --exclude .work --exclude .git --exclude evidence /verif/ %s/ && mkdir -p %s/evidence" % (vc, vc, vc, vc))
+        try:
+            for c in checks:
+                record(c, *sh("unshare -m sh -c 'mount --bind %s /repo && mount --bind %s /verif && cd /verif && ./check %s --tier %s'"
+                              % (wt, vc, c, a.tier), timeout=7200))
+        finally:
+            sh("git checkout -- . && git clean -fdq", cwd=wt)
+            sh("rm -rf " + vc)
+        meta["evaluated_how"] = ("scratch worktree at /repo's HEAD with patch.diff applied, bound at /repo in a private mount "
+                                 "namespace (unshare -m; mount --bind), ./check run there unchanged")
     meta["evaluation"] = results
     meta["caught"] = any(r["exit"] == 1 for r in results.values())
     d = os.path.join(V, "seeded", sid)
